@@ -40,6 +40,9 @@ NoCtl(st)           == st.ctl = 0 /\ st.badsgr = 0          \* C01
 NeutralAtBreaks(st) == st.dirty = 0 /\ st.attrs = Neutral    \* C14: nothing active across \n or at the end
 WidthBound(st, w)   == st.maxcol <= w                         \* C15
 LineCount(st, h)    == st.rows = h                            \* C16
+(* C16: the k rows of the highlighted item start after floor or ceil of half the spare rows (a block at
+   least as tall as the screen starts at the top); top = -1: nothing highlighted in this frame *)
+Centred(h, top, k)  == top >= 0 => IF k >= h THEN top = 0 ELSE top \in {(h - k) \div 2, (h - k + 1) \div 2}
 
 \* ---------------- per-glyph attributes (C14): tokens where every glyph is its own "ch" token
 \* with an identity;  GlyphAttrs gives <<id, attrs>> for each of them in order
